@@ -21,6 +21,8 @@ type uouter[X primT] struct {
 	B *uhold[X]
 	L []uhold[X]
 	M map[string]uhold[X]
+	Q []*uhold[X]
+	R map[string]*uhold[X]
 	N int8
 }
 
@@ -74,14 +76,24 @@ func userPrim[X primT](h *rt.H, deliver func(structform.ExtVisitor) error, want 
 	step(v.OnKey("k"))
 	step(deliver(v))
 	step(v.OnObjectFinished())
+	step(v.OnKey("q"))
+	step(v.OnArrayStart(1, structform.AnyType))
+	step(deliver(v))
+	step(v.OnArrayFinished())
+	step(v.OnKey("r"))
+	step(v.OnObjectStart(1, structform.AnyType))
+	step(v.OnKey("k"))
+	step(deliver(v))
+	step(v.OnObjectFinished())
 	step(v.OnKey("n"))
 	step(v.OnInt8(3))
 	step(v.OnObjectFinished())
 	h.Assert("no-error", err == nil)
-	ok := o.B != nil && len(o.L) == 2 && len(o.M) == 1 && o.N == 3
+	ok := o.B != nil && len(o.L) == 2 && len(o.M) == 1 && o.N == 3 && len(o.Q) == 1 && o.Q[0] != nil && len(o.R) == 1 && o.R["k"] != nil
 	if ok {
 		one := func(x uhold[X]) bool { return rt.And(x.v == want, x.n == 1) }
 		ok = rt.And(rt.And(one(o.A), one(*o.B)), rt.And(rt.And(one(o.L[0]), one(o.L[1])), one(o.M["k"])))
+		ok = rt.And(ok, rt.And(one(*o.Q[0]), one(*o.R["k"])))
 	}
 	h.Assert("value", ok)
 }
